@@ -37,6 +37,7 @@ DEFAULT_OPAQUE = {
 class Evaluator(PE):
     keep_atom: Optional[Callable[[str], bool]] = None
     profile: Optional[Dict[Any, int]] = None
+    max_recursion = 1
     empty_loops = False
     site_nodes: List[Any] = []
     merge_enabled = True
@@ -213,6 +214,15 @@ class Evaluator(PE):
             return [(Dct("set", name=f"set@{e.lineno}"), p)]
         if obj is builtins.dict and not args and not kwargs:
             return [(Dct("dict", name=f"dict@{e.lineno}"), p)]
+        if obj is builtins.sorted and args and isinstance(kwargs.get("key"), Sym) and isinstance(kwargs["key"].origin, ast.Attribute) \
+                and kwargs["key"].origin.attr == "index" and isinstance(args[0], (Lst, Tup, Dct)):
+            # sorted(xs, key=ys.index) with known xs and ys: order xs by their position in ys
+            els, open_ = self.iter_elems(args[0], p, e)
+            r = self.ev(kwargs["key"].origin.value, p)
+            if len(r) == 1 and isinstance(r[0][0], (Lst, Tup)) and not open_ and not getattr(r[0][0], "open", False):
+                order = [x.key() for x in r[0][0].items]
+                if all(x.key() in order for x in els):
+                    return [(Lst(sorted(els, key=lambda x: order.index(x.key())), False, name="sorted"), p)]
         if obj is builtins.sorted and args:
             a = args[0]
             if isinstance(a, (Lst, Tup, Dct)):
@@ -548,7 +558,7 @@ class Evaluator(PE):
             or fi.node.name in self.force_opaque
             or (fi.module not in self.inline_modules and not force)
             or (not force and len(self.call_stack) > self.inline_depth)
-            or any(f.key == key for f in self.call_stack)
+            or sum(1 for f in self.call_stack if f.key == key) >= self.max_recursion
         ):
             cargs, ckw = self._canonical_args(fv, args, kwargs)
             return [(self.opaque_call(opaque_name, cargs, ckw, e, list(args) + list(kwargs.values())), p)]
